@@ -218,6 +218,6 @@ def run_rule_case(case):
 
 
 def model_post(exp, mo):
-    if isinstance(mo, list) and len(mo) == 3 and isinstance(mo[1], list):
+    if exp.get("what", "").startswith("election_states") and isinstance(mo, list) and len(mo) == 3 and isinstance(mo[1], list):
         return [mo[0], approx_calls(rules.norm_calls(mo[1])), mo[2]]
     return mo
